@@ -193,11 +193,9 @@ Definition tok_lay_ok (t : tok) (tl : list tok) (nf : bytes) : bool :=
   | TSp n => negb (Nat.eqb n 0) && match tl with TSp _ :: _ => false | _ => true end
   end.
 (* no text but a blank-padded day or a run of blanks starts with a blank *)
+Definition tok_special (t : tok) : bool := match t with TK K_D _ | TSp _ => true | _ => false end.
 Definition tok_nosp_ok (t : tok) : bool :=
-  match t with
-  | TK K_D _ | TSp _ => true
-  | _ => forallb (fun w => match w with b :: _ => negb (byte_eqb b x20) | [] => false end) (tvals t)
-  end.
+  tok_special t || forallb (fun w => match w with b :: _ => negb (byte_eqb b x20) | [] => false end) (tvals t).
 
 Fixpoint toks_ok (terms : list term) (l : list tok) : bool :=
   match l with
